@@ -23,7 +23,7 @@ MANIFEST = {
     "technique": "property-based testing (rapid) over (t,n,secret,identifiers,subset,order,alteration) for Shamir/Feldman sharing on all four groups with a math/big Lagrange reference giving an exact accept/reject oracle for Verify; "
                  "property-based testing plus exhaustive k-subset enumeration (l <= 6) for Shoup threshold RSA with crypto/rsa as the verification oracle",
     "text": "Generated-input search. Secret sharing: every dealt share must lie on one polynomial of degree <= t with f(0) = secret (independent big-integer interpolation), must pass Verify against CommitSecret, "
-            "an altered share (value, identifier, identifier 0, swapped, other share's parts) must be accepted by Verify exactly when it still lies on the polynomial and has a non-zero identifier, "
+            "an altered share (value, identifier, identifier 0, swapped, other share's parts, and the algebraically near ones: negated value / identifier, doubled, halved, inverted value, value + f(-id), f(id+1)) must be accepted by Verify exactly when it still lies on the polynomial and has a non-zero identifier, "
             "Recover must return the secret for every drawn subset of more than t shares in any order and an error (no panic) for every subset of at most t shares. "
             "Threshold RSA: for drawn (key, l, k, cache, blinding, padding, hash, salt mode, message) the partial signatures of any drawn subset of >= k distinct players in any order must combine to a signature that "
             "crypto/rsa verifies (and that equals crypto/rsa.SignPKCS1v15 byte for byte for PKCS#1 v1.5); k-1 players must not yield a verifying signature; the same key-share objects then sign a second message (optionally after a marshal round trip) and must combine again; all k-subsets are enumerated for l <= 6. "
